@@ -231,7 +231,9 @@ func checkC19(p *Prog, l *Ledger) {
 			default:
 				l.Violate("C19/S1-status", "main.runFile#flags", firstPos(w), "after run() the flags must be consulted as HadError, then HadRuntimeError; found ["+fl+"]: "+word)
 			}
-			if runCall && !hasOp(w, "call", func(e *Event) bool { return e.Args[0] == "main.run" && len(e.Args) == 3 && runReplFlag(p, e.Args[2]) == "false" }) {
+			if runCall && !hasOp(w, "call", func(e *Event) bool {
+				return e.Args[0] == "main.run" && len(e.Args) == 3 && runReplFlag(p, e.Args[2]) == "false"
+			}) {
 				l.Violate("C19/S1-status", "main.runFile#repl-flag", firstPos(w), "a script must run with isRepl=false: "+word)
 			}
 		}
